@@ -10,6 +10,7 @@ import O2P.Drv.Cookies
 import O2P.Drv.Conc
 import O2P.Drv.CookieJar
 import O2P.Drv.NetSet
+import O2P.Drv.Token
 /-!
   Line-protocol driver: reads one operation per line on stdin, writes the model's canonical
   answer per line on stdout.  Compiled as a core-only `lean_exe`.  Each `O2P/Drv/<X>.lean`
@@ -18,7 +19,7 @@ import O2P.Drv.NetSet
 open O2P O2P.Drv
 
 def allOps : List (String × Op) :=
-  routesOps ++ serveOps ++ upstreamOps ++ headersOps ++ authzOps ++ redirectOps ++ signedOps ++ cookiesOps ++ concOps ++ cookieJarOps ++ netsetOps
+  routesOps ++ serveOps ++ upstreamOps ++ headersOps ++ authzOps ++ redirectOps ++ signedOps ++ cookiesOps ++ concOps ++ cookieJarOps ++ netsetOps ++ tokenOps
 
 def dispatch (line : String) : String :=
   match line.splitOn "\t" with
